@@ -57,7 +57,7 @@ func (Keeper).CalculateBaseFee
             ==> result != nil && *result == imax(b - ((b * (T - g)) / T) / den, floor)
     ensures fresh_result: result != nil ==> fresh(result)
     // `if parentBaseFee == nil { return nil }`: sdkmath.Int.BigInt() of a stored (non-nil) Int is never nil
-    unreachable return7
+    unreachable return: return nil#2
     // `if !parentGasTargetBig.IsUint64() { return nil }`: the gas limit is at most 2^64-1 and the multiplier at least 1
-    unreachable return2
+    unreachable return: return nil#3
 @*/
